@@ -52,7 +52,8 @@ EXHAUSTIVE_SCOPE = {
            "independently present (16 states per pair), and on 4 switches with 5 states per pair {none, one-way, link, one-way + "
            "link, 2 links}; topo: every graph on 2 switches with 16 states per pair and on 3 switches with 7 states per pair "
            "{none, one-way either direction, link, one-way + link either order, 2 links}, run to convergence through the real "
-           "controller and switches; every graph on 3 switches with 3 states per pair x each switch disconnecting and reconnecting",
+           "controller and switches; every graph on 3 switches with 3 states per pair x each switch disconnecting and reconnecting; "
+           "discovery.launch() options link_timeout in {default, 1, 2, 3, 4, 7, 20, 30} x explicit_drop x install_flow on two fixed graphs",
   "thorough": "static: additionally 5 switches with 3 states per pair {none, link, one-way + link} and 4 switches with 7 states; "
               "topo: every graph on <= 3 switches with 16 states per pair and on 4 switches with 5 states per pair",
 }
@@ -238,7 +239,9 @@ def case_topo(c, out):
   _reset_modules()
   w = NetWorld()
   try:
-    D.launch(no_flow=not opts.get("install_flow", True))
+    lt = opts.get("link_timeout")
+    D.launch(no_flow=not opts.get("install_flow", True), explicit_drop=opts.get("explicit_drop", True),
+             link_timeout=lt, eat_early_packets=bool(opts.get("eat_early_packets")))
     ST.launch(no_flood=bool(opts.get("no_flood")), hold_down=bool(opts.get("hold_down")))
     disc = w.core.openflow_discovery
     evs = {}
@@ -247,7 +250,12 @@ def case_topo(c, out):
     stale = [0]
     last_rx = {}                    # (dpid, port) -> virtual time a frame last entered that port
     event_bad = []
-    TIMEOUT = float(disc._link_timeout)
+    TIMEOUT = float(lt or 10)                 # what the configuration asks for, not what the component ended up with
+    CYCLE = TIMEOUT / 2.0                     # documented: every port is probed once per half timeout
+    CALM = TIMEOUT + CYCLE + 1.0
+    quiesce_dt = max(QUIESCE, CYCLE + TIMEOUT + 5.0 + 4.0)
+    live_since = {}
+    churn = [w.clock.now]                     # last time a switch connected or disconnected (the sender re-times itself)
 
     def on_link(e):
       k = tuple(e.link)
@@ -267,10 +275,16 @@ def case_topo(c, out):
         a, ap, b, bp = k
         gone = [d for d in (a, b) if d not in connected]
         seen = last_rx.get((b, bp))
+        why = None
         if not gone and seen is not None and not (seen + TIMEOUT < now):
-          event_bad.append(("link-removed-unjustified", k, now,
-                            "both switches are connected and a probe arrived over it %.3f s ago (timeout %g s)" % (
-                                now - seen, TIMEOUT),
+          why = "both switches are connected and a probe arrived over it %.3f s ago (timeout %g s)" % (now - seen, TIMEOUT)
+        elif (not gone and k in live_cables() and live_since.get(k, now) <= now - CALM and churn[0] <= now - CALM):
+          why = ("the cable has been healthy for %.3f s and no switch connected or disconnected for %.3f s, yet the last probe "
+                 "over it arrived %s (timeout %g s, probe cycle %g s)" % (
+                     now - live_since[k], now - churn[0],
+                     "never" if seen is None else "%.3f s ago" % (now - seen), TIMEOUT, CYCLE))
+        if why:
+          event_bad.append(("link-removed-unjustified", k, now, why,
                             {"during": {"disconnect": "switch-disconnect", "flap": "switch-disconnect", "connect": "switch-connect",
                                         "adv": "time-passing", "quiesce": "time-passing"}.get(st_.get("op"), "other")}))
     disc.addListenerByName("LinkEvent", on_link)
@@ -313,6 +327,14 @@ def case_topo(c, out):
     def live_cables():
       return set(dl for dl in up if up[dl] and dl[0] in connected and dl[2] in connected
                  and dl[0] not in silent and dl[2] not in silent)
+
+    def track_live():
+      lc = live_cables()
+      for dl in list(live_since):
+        if dl not in lc:
+          del live_since[dl]
+      for dl in lc:
+        live_since.setdefault(dl, w.clock.now)
 
     def noflood_bits():
       nf = set()
@@ -436,7 +458,9 @@ def case_topo(c, out):
             out.label("history:reconnect")
         st_["was_connected"].add(d)
         connected.add(d)
+        churn[0] = w.clock.now
         sync_dead()
+        track_live()
         net.connect(d, revive=d not in silent)
         sync_dead()
         w.settle()
@@ -447,6 +471,8 @@ def case_topo(c, out):
                if touches_tree([(dl[0], dl[1]), (dl[2], dl[3])])):
           removed_tree_link[0] = True
         connected.discard(d)
+        churn[0] = w.clock.now
+        track_live()
         net.disconnect(d)
         sync_dead()
         w.settle()
@@ -477,6 +503,7 @@ def case_topo(c, out):
     for op in c["ops"]:
       o = op["o"]
       st_["op"] = o
+      track_live()
       before_op = adj_now()
       if o == "connect":
         d = dpids[op["s"] % n]
@@ -493,6 +520,7 @@ def case_topo(c, out):
         if d in connected:
           do_disconnect(d)
           immediate("disconnect", before_op, d)
+          track_live()
           w.advance(op["dt"] / 8.0)
           b2 = adj_now()
           do_connect(d)
@@ -525,9 +553,11 @@ def case_topo(c, out):
         silent.discard(dpids[op["s"] % n])
         sync_dead()
       elif o == "adv":
+        track_live()
         w.advance(op["dt"] / 8.0)
       elif o == "quiesce":
-        w.advance(QUIESCE)
+        track_live()
+        w.advance(quiesce_dt)
         judge()
       else:
         raise HarnessError("bad op %r" % (op,))
@@ -563,6 +593,12 @@ def case_topo(c, out):
         out.label("opt:" + k)
     if not opts.get("install_flow", True):
       out.label("opt:no_flow")
+    if lt:
+      out.label("opt:link_timeout:%s" % ("short" if lt < 10 else "long"))
+    if not opts.get("explicit_drop", True):
+      out.label("opt:no_explicit_drop")
+    if opts.get("eat_early_packets"):
+      out.label("opt:eat_early_packets")
   finally:
     w.close()
 
@@ -644,6 +680,21 @@ def enum_disconnect(tier):
     for s_ in range(3):
       yield {"k": "topo", "n": 3, "cables": cables, "extra": 1, "opts": {},
              "ops": _converge_ops(3) + [{"o": "disconnect", "s": s_}, {"o": "quiesce"}, {"o": "connect", "s": s_}, {"o": "quiesce"}]}
+
+
+def enum_options(tier):
+  """discovery.launch() options on a few fixed graphs: converge, stay quiet, lose a switch, stay quiet."""
+  tri = [[0, 1, 1, 1, 1, 1], [1, 2, 2, 1, 1, 1], [0, 2, 2, 2, 1, 1]]
+  par = [[0, 1, 1, 1, 1, 1], [0, 2, 1, 2, 1, 1], [1, 3, 2, 1, 1, 0]]
+  for cables in (tri, par):
+    for lt in (None, 1, 2, 3, 4, 7, 20, 30):
+      for xd in (True, False):
+        for flow in (True, False):
+          opts = {"explicit_drop": xd, "install_flow": flow, "eat_early_packets": not xd}
+          if lt:
+            opts["link_timeout"] = lt
+          yield {"k": "topo", "n": 3, "cables": cables, "extra": 1, "opts": opts,
+                 "ops": _converge_ops(3) + [{"o": "quiesce"}, {"o": "disconnect", "s": 2}, {"o": "quiesce"}, {"o": "quiesce"}]}
 
 
 _B64 = [0, 1, 2, 0xff, 0x100, 0xffff, 0x10000, 0xffffffff, 0x100000000, (1 << 48) - 1, 1 << 48, (1 << 48) + 1,
@@ -758,6 +809,16 @@ def _topo(draw, nmax, maxops):
     opts["hold_down"] = True
   elif k == 3:
     opts["install_flow"] = False
+  # discovery.launch() options
+  k2 = draw(st.integers(0, 9))
+  if k2 in (0, 1, 2):
+    opts["link_timeout"] = draw(st.sampled_from([2, 3, 4, 7]))
+  elif k2 == 3:
+    opts["link_timeout"] = draw(st.sampled_from([20, 30]))
+  if draw(st.integers(0, 7)) == 0:
+    opts["explicit_drop"] = False
+  if draw(st.integers(0, 7)) == 0:
+    opts["eat_early_packets"] = True
   return {"k": "topo", "n": n, "cables": cables, "extra": draw(st.integers(1, 2)), "opts": opts, "ops": ops}
 
 
@@ -767,6 +828,7 @@ def plan(tier):
             Enum("probe-boundaries", lambda: enum_probe("quick"), shards=8),
             Enum("converge-small-graphs", lambda: enum_topo("quick"), shards=16),
             Enum("disconnect-each-switch", lambda: enum_disconnect("quick"), shards=16),
+            Enum("launch-options", lambda: enum_options("quick"), shards=16),
             Hyp("probe-random", _probe, examples=400, shards=4),
             Hyp("static-random", lambda: _static(8), examples=2000, shards=4),
             Hyp("histories", lambda: _topo(5, 8), examples=1440, shards=16)]
@@ -774,6 +836,7 @@ def plan(tier):
           Enum("probe-boundaries", lambda: enum_probe("thorough"), shards=8),
           Enum("converge-small-graphs", lambda: enum_topo("thorough"), shards=16),
           Enum("disconnect-each-switch", lambda: enum_disconnect("thorough"), shards=16),
+          Enum("launch-options", lambda: enum_options("thorough"), shards=16),
           Hyp("probe-random", _probe, examples=6000, shards=8),
           Hyp("static-random", lambda: _static(12), examples=40000, shards=8),
           Hyp("histories", lambda: _topo(12, 20), examples=12000, shards=16)]
